@@ -111,10 +111,10 @@ impl HttpPrinter {
 
         match strat {
             BodyStrategy::Fast(buf, _) => write_vectored_bytes(writer, head, &buf),
-            BodyStrategy::Streaming(reader, _) => {
+            BodyStrategy::Streaming(reader, cl) => {
                 let mut bw = BufWriter::new(writer);
                 bw.write_all(&head)?;
-                write_streaming(&mut bw, reader)
+                write_streaming(&mut bw, reader, cl)
             }
             BodyStrategy::Chunked { reader } => {
                 let mut bw = BufWriter::new(writer);
@@ -143,10 +143,10 @@ impl HttpPrinter {
 
         match strat {
             BodyStrategy::Fast(buf, _) => write_vectored_bytes(writer, head, &buf),
-            BodyStrategy::Streaming(reader, _) => {
+            BodyStrategy::Streaming(reader, cl) => {
                 let mut bw = BufWriter::new(writer);
                 bw.write_all(&head)?;
-                write_streaming(&mut bw, reader)
+                write_streaming(&mut bw, reader, cl)
             }
             BodyStrategy::Chunked { reader } => {
                 let mut bw = BufWriter::new(writer);
@@ -388,8 +388,16 @@ fn write_vectored_bytes<W: Write>(mut writer: W, mut head: Vec<u8>, body: &[u8])
 }
 
 #[inline]
-fn write_streaming<W: Write, R: Read>(writer: &mut W, mut body: R) -> io::Result<()> {
-    std::io::copy(&mut body, writer).map(|_| ())
+fn write_streaming<W: Write, R: Read>(writer: &mut W, body: R, cl: u64) -> io::Result<()> {
+    // exactly the declared number of bytes: more would run into the next message
+    let copied = std::io::copy(&mut body.take(cl), writer)?;
+    if copied < cl {
+        return Err(io::Error::new(
+            io::ErrorKind::UnexpectedEof,
+            "body shorter than the declared content-length",
+        ));
+    }
+    Ok(())
 }
 
 #[inline]
